@@ -191,7 +191,7 @@ class XPathFunction(XPathToken):
             return self._qname
         elif self.symbol == 'function':
             return None
-        elif self.label == 'partial function':
+        elif self.label in ('partial function', 'array', 'map'):
             return None
         elif not self.namespace:
             self._qname = QName(None, self.symbol)
